@@ -32,6 +32,9 @@ func (in *Interp) fieldTypeTable() []types.Type {
 		types.Typ[types.Float64],           // 10 float64
 		types.NewSlice(types.Typ[types.Int]), // 11 []int
 		types.NewMap(str, str),             // 12 map[string]string
+		in.harnessType("vUserID"),                 // 13 a named string type
+		types.NewSlice(in.harnessType("vUserID")), // 14 a slice of a named string type
+		in.harnessType("vIDs"),                    // 15 a named []string type
 	}
 }
 
@@ -172,4 +175,12 @@ func init() {
 		t := ss.Desc.Fields[in.concInt(args[1], "i")].T
 		return Iface{T: t, V: in.zero(t)}
 	}
+}
+
+func (in *Interp) harnessType(name string) types.Type {
+	m := in.P.Pkg.Type(name)
+	if m == nil {
+		in.unsupported("harness type %s not declared", name)
+	}
+	return m.Type()
 }
